@@ -395,7 +395,31 @@ class CallGraph:
             arg = bind_args(f, t, bound=_is_bound_call(t, f)).get(pname)
             if arg is not None:
                 out.append(arg)
+        # functools.partial(f, ...): the bound arguments
+        for caller, pt in self.partials_of(f):
+            inner = ("call", pt[2][0], pt[2][1:], pt[3])
+            arg = bind_args(f, inner, bound=_is_bound_call(inner, f)).get(pname)
+            if arg is not None:
+                out.append(arg)
         return out
+
+    def partials_of(self, f: Func) -> list[tuple[Func, Term]]:
+        """(function, term of `functools.partial(f, ...)`) for every partial application of ``f``."""
+        idx = self.__dict__.get("_partials")
+        if idx is None:
+            idx = {}
+            for g in self.repo.all_funcs():
+                for call, _cs in self._sites.get(g.qualname, []):
+                    d = dotted(call.func)
+                    if d is None or d.split(".")[-1] != "partial" or not call.args:
+                        continue
+                    t = self.X.at(g, call)
+                    if t[0] != "call" or t[1] != ("global", "functools.partial") or not t[2]:
+                        continue
+                    for h in self.resolve_fn(t[2][0], g):
+                        idx.setdefault(h.qualname, []).append((g, t))
+            self.__dict__["_partials"] = idx
+        return idx.get(f.qualname, [])
 
     # -------------------------------------------------------------- indexes
     def _build(self) -> None:
